@@ -60,6 +60,16 @@ func (p *Prog) InlineHelpers(noInline map[string]bool) (inlined []string, remove
 	}
 	everInlined := map[*ssa.Function]bool{}
 	devirt := false
+	// calls through package-level function variables that hold one function for ever are calls of that function
+	for _, f := range p.Funcs {
+		if n := ssa.DevirtualizeGlobals(f); n > 0 {
+			var buf bytes.Buffer
+			if e := ssa.FinishInlining(f, &buf); e != nil {
+				return inlined, removed, fmt.Errorf("global function variables: %v: %s", e, buf.String())
+			}
+			inlined = append(inlined, fmt.Sprintf("%s: %d call(s) through constant package-level function variables resolved", p.Key(f), n))
+		}
+	}
 	for round := 0; round < inlineRounds; round++ {
 		changedAny := false
 		for _, f := range p.Funcs {
